@@ -836,3 +836,28 @@ def check_derived_views(ctx, cfg, rule="C01.V"):
                 _ts(pt), off, ext, " and the range of the closure's argument" if par is not None else "", ok), at=b["at"], cfg=cfg, frozen=False)
     ctx.ob(rule, "sweep (%s)" % cfg, n >= 3, "reborrows of pointers into sized objects handed in by reference: %d, of which %d view a part of the object or a differently sized type" % (n, nontrivial), cfg=cfg)
     return n
+
+
+def check_no_generic_zeroed(ctx, cfg, rule):
+    """`mem::zeroed::<X>()` is valid only for types whose all-zero bit pattern is a value: for an X that mentions a type parameter (an array of
+    caller-chosen elements) it is not in general - the intrinsic's validity check aborts the process for references, NonZero, NonNull, Box, String ..
+    (and where it is not checked, an invalid value exists). Storage that is filled in afterwards is `MaybeUninit`; a zeroed generic value is a
+    violation wherever it appears. Zero instances on the reviewed tree; the seeds S225 / S235 are the positive examples in the selftest."""
+    from .typestate import has_generic
+    db = ctx.db(cfg)
+    n = 0
+    for b in db.bodies:
+        if b["kind"] not in ("Fn", "AssocFn", "Closure"):
+            continue
+        for blk in b["mir"]["blocks"]:
+            t = blk["term"]
+            if t["k"] != "call" or t["f"].get("k") != "fn" or t["f"]["def"] not in ("core::mem::zeroed", "core::mem::MaybeUninit::<T>::zeroed"):
+                continue
+            ta = [x for x in t["f"].get("args", []) if x.get("k") != "region"]
+            n += 1
+            if t["f"]["def"] == "core::mem::zeroed" and ta and has_generic(ta[0]):
+                from .tys import tstr as _ts
+                ctx.ob(rule, "%s#zeroed#%d" % (b["key"], n), REFUTED, "mem::zeroed::<%s>() - a zeroed value of a type that mentions a type parameter: invalid (and an abort) for element types without a valid all-zero pattern" % _ts(ta[0]),
+                       at=t.get("at") or b["at"], cfg=cfg)
+    ctx.ob(rule, "zeroed sweep (%s)" % cfg, PROVED, "calls of mem::zeroed / MaybeUninit::zeroed in the crate: %d; none makes a zeroed value of a generic type" % n, cfg=cfg)
+    return n
